@@ -159,4 +159,14 @@ def check(ctx: Ctx) -> str:
     last_else = [n_ for n_ in ast.walk(fr.node) if isinstance(n_, ast.If) and ast.unparse(n_.test) == "isinstance(template.value, str)"]
     ok = len(last_else) == 1 and bool(last_else[0].orelse)
     ctx.check(ok and "yield None" in ast.unparse(ast.Module(body=last_else[0].orelse, type_ignores=[])), "frt:const-other", "meta:find_referenced_templates", "other constants yield None", "a constant that is neither a string nor an include list must yield None", fr.loc())
+    ctx.rule("R5", "Node.find_all searches every child field (iter_child_nodes without only / exclude), so a reference nested in any field - elif branches, call arguments - is found")
+    ctx.use("nodes")
+    fa = repo.func("nodes:Node.find_all")
+    ic = [c for c in astq.calls(fa.node) if astq.attr_tail(c) == "iter_child_nodes"]
+    ctx.need(bool(ic), "Node.find_all no longer iterates child nodes")
+    restricted = [c for c in ic if c.args or c.keywords]
+    ctx.check(not restricted, "find_all:all-fields", "nodes:Node.find_all", f"`{ast.unparse(restricted[0])}`" if restricted else "all fields",
+              f"Node.find_all restricts the traversal (`{ast.unparse(restricted[0]) if restricted else ''}`): nodes in the skipped fields (`If.elif_`, expression fields) are never found, so meta.find_referenced_templates misses an include / import / extends there although rendering loads it",
+              fa.loc(restricted[0]) if restricted else fa.loc())
+
     return __doc__ or ""
